@@ -179,3 +179,144 @@ def run(ctx):
             cm5.rel,
             rc.lineno,
         )
+
+    # ---- C32.6 a previous scratch output is reused only for cache scope BACKEND --------------
+    r6 = ctx.rule("C32.6", "stale scratch output is reused only when the job's cache scope is BACKEND (flag, callers, oneshot, reunite guards agree)", floor=8)
+    cmdm = repo.mod("redun/executors/command.py")
+    goc = cmdm.func("get_oneshot_command")
+    members = [t.id for n in repo.mod("redun/task.py").cls("CacheScope").body if isinstance(n, ast.Assign) for t in n.targets if isinstance(t, ast.Name)]
+    if "BACKEND" not in members or len(members) < 3:
+        raise AnalysisError(f"CacheScope members {members}", "CacheScope")
+    scope_names = {"__scope__"}
+    for a in ast.walk(goc):
+        if isinstance(a, ast.Assign) and _is_scope_expr(a.value) and isinstance(a.targets[0], ast.Name):
+            scope_names.add(a.targets[0].id)
+    flag_defs = [a for a in ast.walk(goc) if isinstance(a, ast.Assign) and any("--no-cache" == c.value for c in ast.walk(a.value) if isinstance(c, ast.Constant))]
+    if len(flag_defs) != 1:
+        raise AnalysisError(f"get_oneshot_command: {len(flag_defs)} assignments mention '--no-cache' (expected 1)", "get_oneshot_command")
+    for mem in members:
+        val = _eval_scope(flag_defs[0].value, mem, scope_names)
+        if val is None:
+            raise AnalysisError(f"get_oneshot_command: cannot evaluate `{src(flag_defs[0].value)[:80]}` for cache scope {mem}", "get_oneshot_command")
+        has = any(isinstance(c, ast.Constant) and c.value == "--no-cache" for c in ast.walk(val))
+        if mem != "BACKEND":
+            r6.check(
+                has,
+                f"{cmdm.rel}:get_oneshot_command:no-cache[{mem}]",
+                f"for cache scope {mem} the remote command carries no --no-cache: `redun oneshot` then returns a pickled output left under the same eval hash by an earlier run "
+                "instead of calling the task, although the scheduler was told not to reuse results from other executions",
+                cmdm.rel,
+                flag_defs[0].lineno,
+            )
+        else:
+            r6.good(f"{cmdm.rel}:get_oneshot_command:no-cache[{mem}]", "reuse allowed")
+    params = [a.arg for a in goc.args.args]
+    jo_i = params.index("job_options")
+    for mod, c in repo.all_calls(lambda c: last_attr(c) == "get_oneshot_command"):
+        if mod.rel.startswith("redun/tests"):
+            continue
+        v = c.args[jo_i] if len(c.args) > jo_i else kwarg(c, "job_options")
+        q = mod.enclosing_qual(c)
+        r6.check(
+            v is not None and not (isinstance(v, ast.Dict) and not v.keys),
+            f"{mod.rel}:{q}:get_oneshot_command:job_options",
+            f"{q} builds the remote command without the job's options: the cache scope defaults to BACKEND, --no-cache is never passed, and a job that must not reuse "
+            "earlier results (cache=False) gets the stale output of an earlier run from its scratch directory",
+            mod.rel,
+            c.lineno,
+        )
+    # oneshot: existing output returned only without --no-cache
+    one6 = repo.mod("redun/cli.py").func("RedunClient.oneshot_command")
+    c6 = CFG(one6)
+    from ..cfg import facts_at as _facts_at
+
+    loads = [n for n in c6.nodes if n.kind == "stmt" and isinstance(n.ast, ast.Return) and n.ast.value is not None and src(n.ast.value) == "result" and any(f == "output_file.exists()" and t for f, t in _facts_at(c6, n))]
+    if not loads:
+        raise AnalysisError("oneshot_command: `return result` under output_file.exists() not found", "RedunClient.oneshot_command")
+    for n in loads:
+        r6.check(("args.no_cache", False) in _facts_at(c6, n), f"redun/cli.py:RedunClient.oneshot_command:existing-output", "an existing output file is returned even under --no-cache", "redun/cli.py", n.lineno)
+    # executors: reunite with an in-flight job / its output only for BACKEND
+    nre = 0
+    for mod in repo.modules.values():
+        if not mod.rel.startswith("redun/executors/"):
+            continue
+        for qn, fn in mod.funcs.items():
+            cf = None
+            for t in ast.walk(fn):
+                if isinstance(t, ast.Compare) and len(t.ops) == 1 and isinstance(t.ops[0], ast.In) and src(t.left) == "job.eval_hash" and src(t.comparators[0]).startswith("self.preexisting_") and mod.enclosing_func(t) is fn:
+                    nre += 1
+                    cf = cf or CFG(fn)
+                    p = mod.parent.get(t)
+                    conj = [src(v) for v in p.values] if isinstance(p, ast.BoolOp) and isinstance(p.op, ast.And) else [src(t)]
+                    sc = [x for x in conj if x.endswith("== CacheScope.BACKEND")]
+                    ok = False
+                    if sc:
+                        var = sc[0].split(" ==")[0]
+                        defs = [a for a in ast.walk(fn) if isinstance(a, ast.Assign) and src(a.targets[0]) == var]
+                        ok = len(defs) == 1 and _is_scope_expr(defs[0].value, ("task_options", "job_options"))
+                    r6.check(ok, f"{mod.rel}:{qn}:reunite-scope", f"`{src(t)}` is consulted without `<job's cache_scope> == CacheScope.BACKEND`: a job that must not reuse results is reunited with an earlier remote job", mod.rel, t.lineno)
+    if nre < 4:
+        raise AnalysisError(f"only {nre} reunite lookups found in executors (expected >= 4)", "preexisting_")
+
+
+def _is_scope_expr(e, holders=("job_options",)) -> bool:
+    """CacheScope(<options>.get('cache_scope', CacheScope.BACKEND))"""
+    return (
+        isinstance(e, ast.Call)
+        and call_name(e) == "CacheScope"
+        and len(e.args) == 1
+        and isinstance(e.args[0], ast.Call)
+        and isinstance(e.args[0].func, ast.Attribute)
+        and e.args[0].func.attr == "get"
+        and src(e.args[0].func.value) in holders
+        and len(e.args[0].args) == 2
+        and const_str(e.args[0].args[0]) == "cache_scope"
+        and src(e.args[0].args[1]) == "CacheScope.BACKEND"
+    )
+
+
+def _eval_scope(e, mem, scope_names):
+    """Partially evaluate `e` knowing that the job's cache scope is CacheScope.<mem>.  Returns an AST (value) / True / False / None (unknown)."""
+
+    def is_scope(x):
+        return _is_scope_expr(x) or (isinstance(x, ast.Name) and x.id in scope_names)
+
+    def member(x):
+        return x.attr if isinstance(x, ast.Attribute) and src(x.value) == "CacheScope" else None
+
+    def truth(t):
+        if isinstance(t, ast.UnaryOp) and isinstance(t.op, ast.Not):
+            v = truth(t.operand)
+            return None if v is None else (not v)
+        if isinstance(t, ast.BoolOp):
+            vs = [truth(v) for v in t.values]
+            if any(v is None for v in vs):
+                return None
+            return all(vs) if isinstance(t.op, ast.And) else any(vs)
+        if isinstance(t, ast.Compare) and len(t.ops) == 1:
+            l, r, op = t.left, t.comparators[0], t.ops[0]
+            if is_scope(r) and not is_scope(l):
+                l, r = r, l
+            if not is_scope(l):
+                return None
+            if isinstance(op, (ast.Eq, ast.Is, ast.NotEq, ast.IsNot)):
+                mm = member(r)
+                if mm is None:
+                    return None
+                eq = mm == mem
+                return eq if isinstance(op, (ast.Eq, ast.Is)) else (not eq)
+            if isinstance(op, (ast.In, ast.NotIn)) and isinstance(r, (ast.Tuple, ast.List, ast.Set)):
+                ms = [member(x) for x in r.elts]
+                if any(x is None for x in ms):
+                    return None
+                return (mem in ms) if isinstance(op, ast.In) else (mem not in ms)
+        return None
+
+    if isinstance(e, ast.IfExp):
+        v = truth(e.test)
+        if v is None:
+            return None
+        return _eval_scope(e.body if v else e.orelse, mem, scope_names)
+    if isinstance(e, (ast.List, ast.Tuple)):
+        return e
+    return None
